@@ -1,2 +1,484 @@
-//! w_airdrop: world helpers (filled in by the properties that need it).
+//! w_airdrop: the airdrop world (C16).  Real contracts in cw-multi-test: vending
+//! factory -> vending minter + sg721-base collection, a plain sg-whitelist as the
+//! collection's whitelist, sg-eth-airdrop which instantiates its own whitelist-immutable.
+//! The setup steps are the harness's own copy of what test-suite/src/sg_eth_airdrop does
+//! (no dependency on the test-suite crate).  Also here: an eth key/signature toolbox and
+//! an *independent* personal-sign verifier (ethers-core's k256 0.11 + tiny-keccak; the
+//! contract uses cosmwasm-crypto's k256 0.13 + sha3 through packages/ethereum-verify).
 #![allow(dead_code, unused_imports)]
+use crate::chain;
+use cosmwasm_std::testing::{MockApi, MockStorage};
+use cosmwasm_std::{
+    coin, coins, Addr, Api, BankMsg, Binary, BlockInfo, Coin, CustomMsg, CustomQuery, Decimal, Empty, Querier, Storage,
+    Timestamp,
+};
+use cw_multi_test::error::{bail, AnyResult};
+use cw_multi_test::{
+    no_init, AppBuilder, AppResponse, BankKeeper, BankSudo, CosmosRouter, Executor, FailingModule, Module, Stargate,
+    StargateMsg, StargateQuery, SudoMsg, WasmKeeper,
+};
+use serde::de::DeserializeOwned;
+use ethers_core::k256::ecdsa::SigningKey;
+use ethers_signers::{LocalWallet, Signer};
+
+pub const NATIVE: &str = "ustars";
+pub const CREATOR: &str = "creator";
+pub const FACTORY_CREATION_FEE: u128 = 5_000_000_000;
+pub const WL_MINT_PRICE: u128 = 66_000_000;
+pub const DAY_NS: u64 = 86_400_000_000_000;
+
+pub use crate::chain::App;
+fn mint_coins(app: &mut App, to: &str, amount: u128, denom: &str) {
+    chain::mint_coins(app, to, amount, denom)
+}
+fn bank_balance(app: &App, who: &str, denom: &str) -> u128 {
+    chain::balance(app, who, denom)
+}
+fn storage_digest(app: &App, addr: &Addr) -> String {
+    chain::storage_digest(app, addr)
+}
+/// what chain.rs's keeper says when a MsgFundFairburnPool names somebody else than the
+/// emitting contract as sender (sg-eth-airdrop's instantiate did, before fix d25169f)
+pub const SIGNER_MISMATCH: &str = "is not the calling contract";
+
+/// What a world is built from.  Everything the property quantifies over at world level.
+#[derive(Clone, Debug, serde::Serialize, serde::Deserialize, PartialEq, Eq)]
+pub struct WorldSpec {
+    /// claim_msg_plaintext
+    pub template: String,
+    pub airdrop_amount: u128,
+    pub per_address_limit: u32,
+    /// the strings handed to the airdrop's address list (exactly as given)
+    pub list: Vec<String>,
+    /// ustars attached to instantiate (fee + what funds the claims)
+    pub inst_funds: u128,
+    /// extra ustars minted to the airdrop contract afterwards
+    pub top_up: u128,
+    /// member_limit of the collection whitelist
+    pub cwl_member_limit: u32,
+    /// is the airdrop contract made an admin of the collection whitelist
+    pub airdrop_is_wl_admin: bool,
+    /// does the minter name a whitelist at all
+    pub minter_has_whitelist: bool,
+    /// members the collection whitelist starts with
+    pub cwl_initial_members: Vec<String>,
+}
+
+impl WorldSpec {
+    pub fn basic(list: Vec<String>, limit: u32) -> Self {
+        WorldSpec {
+            template: "My Stargaze address is {wallet} and I want a Winter Pal.".into(),
+            airdrop_amount: 66_000_000,
+            per_address_limit: limit,
+            list,
+            inst_funds: 100_000_000 + 20 * 66_000_000,
+            top_up: 0,
+            cwl_member_limit: 1000,
+            airdrop_is_wl_admin: true,
+            minter_has_whitelist: true,
+            cwl_initial_members: vec![],
+        }
+    }
+}
+
+pub struct World {
+    pub app: App,
+    pub spec: WorldSpec,
+    pub factory: Addr,
+    pub minter: Addr,
+    pub collection_wl: Addr,
+    pub airdrop: Addr,
+    /// the whitelist-immutable the airdrop created (read back from its CONFIG)
+    pub immutable_wl: Addr,
+    /// what the airdrop's instantiate burned / sent to the fair-burn pool
+    pub fee_burned: u128,
+    pub fee_pooled: u128,
+}
+
+/// Result of trying to build a world: instantiate of the airdrop may be rejected (that is
+/// an observation of C16's instantiate validations, not a harness failure).
+pub enum Built {
+    Ok(World),
+    AirdropRejected { err: String, creator_paid: u128 },
+}
+
+pub fn build(spec: &WorldSpec) -> Built {
+    let mut app = chain::new_app();
+    mint_coins(&mut app, CREATOR, 1_000_000_000_000_000_000, NATIVE);
+    let now = app.block_info().time.nanos();
+    let start = chain::GENESIS_NS + 10 * DAY_NS;
+
+    // collection whitelist (plain sg-whitelist)
+    let wl_code = app.store_code(chain::whitelist());
+    let wl_fee = ((spec.cwl_member_limit as u128 + 999) / 1000) * 100_000_000;
+    let collection_wl = app
+        .instantiate_contract(
+            wl_code,
+            Addr::unchecked(CREATOR),
+            &sg_whitelist::msg::InstantiateMsg {
+                members: spec.cwl_initial_members.clone(),
+                start_time: Timestamp::from_nanos(now + DAY_NS),
+                end_time: Timestamp::from_nanos(now + 2 * DAY_NS),
+                mint_price: coin(WL_MINT_PRICE, NATIVE),
+                per_address_limit: 1,
+                member_limit: spec.cwl_member_limit,
+                admins: vec![CREATOR.to_string()],
+                admins_mutable: true,
+            },
+            &coins(wl_fee, NATIVE),
+            "collection whitelist",
+            None,
+        )
+        .expect("collection whitelist instantiates");
+
+    // factory, minter (through the factory), collection
+    let minter_code = app.store_code(chain::vending_minter());
+    let sg721_code = app.store_code(chain::sg721_base());
+    let factory_code = app.store_code(chain::vending_factory());
+    let params = vending_factory::state::VendingMinterParams {
+        code_id: minter_code,
+        allowed_sg721_code_ids: vec![sg721_code],
+        frozen: false,
+        creation_fee: coin(FACTORY_CREATION_FEE, NATIVE),
+        min_mint_price: coin(50_000_000, NATIVE),
+        mint_fee_bps: 1_000,
+        max_trading_offset_secs: 60 * 60 * 24 * 7,
+        extension: vending_factory::state::ParamsExtension {
+            max_token_limit: 10_000,
+            max_per_address_limit: 50,
+            airdrop_mint_price: coin(0, NATIVE),
+            airdrop_mint_fee_bps: 10_000,
+            shuffle_fee: coin(500_000_000, NATIVE),
+        },
+    };
+    let factory = app
+        .instantiate_contract(
+            factory_code,
+            Addr::unchecked(CREATOR),
+            &vending_factory::msg::InstantiateMsg { params },
+            &[],
+            "factory",
+            None,
+        )
+        .expect("factory instantiates");
+    let create = vending_factory::msg::VendingMinterCreateMsg {
+        init_msg: vending_factory::msg::VendingMinterInitMsgExtension {
+            base_token_uri: "ipfs://aldkfjads".to_string(),
+            payment_address: None,
+            start_time: Timestamp::from_nanos(start),
+            num_tokens: 100,
+            mint_price: coin(100_000_000, NATIVE),
+            per_address_limit: 3,
+            whitelist: if spec.minter_has_whitelist { Some(collection_wl.to_string()) } else { None },
+        },
+        collection_params: sg2::msg::CollectionParams {
+            code_id: sg721_code,
+            name: "Collection Name".to_string(),
+            symbol: "COL".to_string(),
+            info: sg721::CollectionInfo {
+                creator: CREATOR.to_string(),
+                description: "Stargaze Monkeys".to_string(),
+                image: "https://example.com/image.png".to_string(),
+                external_link: Some("https://example.com/external.html".to_string()),
+                start_trading_time: None,
+                explicit_content: Some(false),
+                royalty_info: Some(sg721::RoyaltyInfoResponse {
+                    payment_address: CREATOR.to_string(),
+                    share: Decimal::percent(10),
+                }),
+            },
+        },
+    };
+    let res = app
+        .execute_contract(
+            Addr::unchecked(CREATOR),
+            factory.clone(),
+            &sg2::msg::Sg2ExecuteMsg::CreateMinter(create),
+            &coins(FACTORY_CREATION_FEE, NATIVE),
+        )
+        .expect("minter is created");
+    // the minter is the first contract instantiated inside that call
+    let minter = res
+        .events
+        .iter()
+        .filter(|e| e.ty == "instantiate")
+        .filter_map(|e| e.attributes.iter().find(|a| a.key == "_contract_addr" || a.key == "_contract_address"))
+        .map(|a| Addr::unchecked(a.value.clone()))
+        .next()
+        .expect("minter address in events");
+    let mc: vending_minter::msg::ConfigResponse =
+        app.wrap().query_wasm_smart(minter.clone(), &vending_minter::msg::QueryMsg::Config {}).expect("minter config");
+    assert_eq!(mc.whitelist.is_some(), spec.minter_has_whitelist);
+
+    // the airdrop
+    let airdrop_code = app.store_code(chain::eth_airdrop());
+    let wi_code = app.store_code(chain::whitelist_immutable());
+    let before = bank_balance(&app, CREATOR, NATIVE);
+    let pool_before = bank_balance(&app, chain::FAIRBURN_POOL, NATIVE);
+    let msg = sg_eth_airdrop::msg::InstantiateMsg {
+        admin: Addr::unchecked(CREATOR),
+        claim_msg_plaintext: spec.template.clone(),
+        airdrop_amount: spec.airdrop_amount,
+        addresses: spec.list.clone(),
+        whitelist_code_id: wi_code,
+        minter_address: minter.clone(),
+        per_address_limit: spec.per_address_limit,
+    };
+    let funds: Vec<Coin> = if spec.inst_funds == 0 { vec![] } else { coins(spec.inst_funds, NATIVE) };
+    let r = crate::util::catch(|| {
+        app.instantiate_contract(airdrop_code, Addr::unchecked(CREATOR), &msg, &funds, "sg-eth-airdrop", None)
+    });
+    let airdrop = match r {
+        Ok(Ok(a)) => a,
+        Ok(Err(e)) => {
+            let after = bank_balance(&app, CREATOR, NATIVE);
+            return Built::AirdropRejected { err: format!("{:#}", e), creator_paid: before - after };
+        }
+        Err(p) => {
+            let after = bank_balance(&app, CREATOR, NATIVE);
+            return Built::AirdropRejected { err: p, creator_paid: before - after };
+        }
+    };
+    // cw-multi-test's bank has no supply query: what the creator paid and neither the
+    // contract nor the pool holds has been burned
+    let fee_pooled = bank_balance(&app, chain::FAIRBURN_POOL, NATIVE) - pool_before;
+    let creator_paid = before - bank_balance(&app, CREATOR, NATIVE);
+    let fee_burned = creator_paid.saturating_sub(bank_balance(&app, airdrop.as_str(), NATIVE)).saturating_sub(fee_pooled);
+    let cfg = sg_eth_airdrop::state::CONFIG.load(&*app.contract_storage(&airdrop)).expect("airdrop config");
+    let immutable_wl = Addr::unchecked(cfg.whitelist_address.expect("reply stored the whitelist address"));
+    if spec.top_up > 0 {
+        mint_coins(&mut app, airdrop.as_str(), spec.top_up, NATIVE);
+    }
+    if spec.airdrop_is_wl_admin {
+        app.execute_contract(
+            Addr::unchecked(CREATOR),
+            collection_wl.clone(),
+            &sg_whitelist::msg::ExecuteMsg::UpdateAdmins { admins: vec![CREATOR.to_string(), airdrop.to_string()] },
+            &[],
+        )
+        .expect("whitelist admins updated");
+    }
+    Built::Ok(World { app, spec: spec.clone(), factory, minter, collection_wl, airdrop, immutable_wl, fee_burned, fee_pooled })
+}
+
+impl World {
+    pub fn claim(&mut self, sender: &str, eth_address: &str, eth_sig: &str) -> Result<cw_multi_test::AppResponse, String> {
+        let msg = sg_eth_airdrop::msg::ExecuteMsg::ClaimAirdrop {
+            eth_address: eth_address.to_string(),
+            eth_sig: eth_sig.to_string(),
+        };
+        let airdrop = self.airdrop.clone();
+        let app = &mut self.app;
+        match crate::util::catch(|| app.execute_contract(Addr::unchecked(sender), airdrop, &msg, &[])) {
+            Ok(Ok(r)) => Ok(r),
+            Ok(Err(e)) => Err(format!("{:#}", e)),
+            Err(p) => Err(p),
+        }
+    }
+    pub fn eligible(&self, eth_address: &str) -> Option<bool> {
+        self.app
+            .wrap()
+            .query_wasm_smart(
+                self.airdrop.clone(),
+                &sg_eth_airdrop::msg::QueryMsg::AirdropEligible { eth_address: eth_address.to_string() },
+            )
+            .ok()
+    }
+    pub fn has_member(&self, who: &str) -> Option<bool> {
+        let r: Result<sg_whitelist::msg::HasMemberResponse, _> = self
+            .app
+            .wrap()
+            .query_wasm_smart(self.collection_wl.clone(), &sg_whitelist::msg::QueryMsg::HasMember { member: who.to_string() });
+        r.ok().map(|x| x.has_member)
+    }
+    pub fn wl_num_members(&self) -> u32 {
+        sg_whitelist::state::CONFIG.load(&*self.app.contract_storage(&self.collection_wl)).map(|c| c.num_members).unwrap_or(0)
+    }
+    /// raw ADDRS_TO_MINT_COUNT entry
+    pub fn raw_count(&self, eth_address: &str) -> Option<u32> {
+        sg_eth_airdrop::state::ADDRS_TO_MINT_COUNT.may_load(&*self.app.contract_storage(&self.airdrop), eth_address).ok().flatten()
+    }
+    /// all raw ADDRS_TO_MINT_COUNT entries
+    pub fn raw_counts(&self) -> Vec<(String, u32)> {
+        sg_eth_airdrop::state::ADDRS_TO_MINT_COUNT
+            .range(&*self.app.contract_storage(&self.airdrop), None, None, cosmwasm_std::Order::Ascending)
+            .filter_map(|r| r.ok())
+            .collect()
+    }
+    pub fn balance(&self, who: &str) -> u128 {
+        bank_balance(&self.app, who, NATIVE)
+    }
+    pub fn airdrop_balance(&self) -> u128 {
+        bank_balance(&self.app, self.airdrop.as_str(), NATIVE)
+    }
+    pub fn digests(&self) -> (String, String, String) {
+        (
+            storage_digest(&self.app, &self.airdrop),
+            storage_digest(&self.app, &self.collection_wl),
+            storage_digest(&self.app, &self.immutable_wl),
+        )
+    }
+}
+
+// ---------------------------------------------------------------------------------
+// eth keys and signatures (ethers), deterministic from a seed
+// ---------------------------------------------------------------------------------
+
+pub struct EthKey {
+    pub wallet: LocalWallet,
+    /// "0x" + 40 lowercase hex
+    pub addr_lower: String,
+    pub addr_bytes: [u8; 20],
+}
+
+/// key number `i` of a run: private key = keccak(seed || i) (retry on the 2^-128 chance
+/// of an invalid scalar); no OS randomness
+pub fn eth_key(seed: u64, i: u64) -> EthKey {
+    let mut ctr = 0u64;
+    loop {
+        let mut pre = b"lpverif-c16-key".to_vec();
+        pre.extend(seed.to_be_bytes());
+        pre.extend(i.to_be_bytes());
+        pre.extend(ctr.to_be_bytes());
+        let sk = ethers_core::utils::keccak256(&pre);
+        if let Ok(key) = SigningKey::from_bytes(&sk) {
+            let wallet = LocalWallet::from(key);
+            let a = wallet.address();
+            let addr_bytes: [u8; 20] = a.0;
+            return EthKey { wallet, addr_lower: format!("0x{}", hex::encode(addr_bytes)), addr_bytes };
+        }
+        ctr += 1;
+    }
+}
+
+/// personal_sign over `text`; 65 bytes r || s || v with v in {27, 28}
+pub fn personal_sign(k: &EthKey, text: &str) -> [u8; 65] {
+    let sig = async_std::task::block_on(k.wallet.sign_message(text)).expect("sign");
+    let v = sig.to_vec();
+    let mut out = [0u8; 65];
+    out.copy_from_slice(&v);
+    out
+}
+
+// ---------------------------------------------------------------------------------
+// the independent verifier.  Nothing below calls packages/ethereum-verify, the `hex`
+// crate, sha3 or cosmwasm-crypto.
+// ---------------------------------------------------------------------------------
+
+/// strict hex decoding: even length, [0-9a-fA-F] only
+pub fn ind_hex_decode(s: &str) -> Option<Vec<u8>> {
+    ind_hex_decode_bytes(s.as_bytes())
+}
+pub fn ind_hex_decode_bytes(b: &[u8]) -> Option<Vec<u8>> {
+    if b.len() % 2 != 0 {
+        return None;
+    }
+    fn nib(c: u8) -> Option<u8> {
+        match c {
+            b'0'..=b'9' => Some(c - b'0'),
+            b'a'..=b'f' => Some(c - b'a' + 10),
+            b'A'..=b'F' => Some(c - b'A' + 10),
+            _ => None,
+        }
+    }
+    let mut out = Vec::with_capacity(b.len() / 2);
+    for p in b.chunks(2) {
+        out.push(nib(p[0])? * 16 + nib(p[1])?);
+    }
+    Some(out)
+}
+
+/// bytes that personal_sign hashes: "\x19Ethereum Signed Message:\n" + decimal byte length + text
+pub fn ind_eth_preimage(text: &str) -> Vec<u8> {
+    let mut v = vec![0x19u8];
+    v.extend_from_slice(b"Ethereum Signed Message:\n");
+    v.extend_from_slice(text.len().to_string().as_bytes());
+    v.extend_from_slice(text.as_bytes());
+    v
+}
+pub fn ind_keccak(data: &[u8]) -> [u8; 32] {
+    ethers_core::utils::keccak256(data)
+}
+
+/// ECDSA public-key recovery on secp256k1 (k256 0.11 as re-exported by ethers-core):
+/// uncompressed SEC1 point (65 bytes, 0x04 || X || Y) or None.  `recid` in {0,1}.
+pub fn ind_recover(hash: &[u8], rs: &[u8], recid: u8) -> Option<Vec<u8>> {
+    use ethers_core::k256::ecdsa::recoverable;
+    use ethers_core::k256::ecdsa::Signature as KSig;
+    use ethers_core::k256::elliptic_curve::sec1::ToEncodedPoint;
+    if hash.len() != 32 || rs.len() != 64 || recid > 1 {
+        return None;
+    }
+    let sig = KSig::try_from(rs).ok()?;
+    let id = recoverable::Id::new(recid).ok()?;
+    let rsig = recoverable::Signature::new(&sig, id).ok()?;
+    let h = ethers_core::k256::FieldBytes::clone_from_slice(hash);
+    let vk = rsig.recover_verifying_key_from_digest_bytes(&h).ok()?;
+    Some(vk.to_encoded_point(false).as_bytes().to_vec())
+}
+
+/// last 20 bytes of keccak(X || Y) of an uncompressed point
+pub fn ind_address_of(pubkey: &[u8]) -> Option<[u8; 20]> {
+    if pubkey.len() != 65 || pubkey[0] != 4 {
+        return None;
+    }
+    let h = ind_keccak(&pubkey[1..]);
+    let mut a = [0u8; 20];
+    a.copy_from_slice(&h[12..]);
+    Some(a)
+}
+
+/// textbook ECDSA verification (no low-S rule): u1 = z/s, u2 = r/s, (u1 G + u2 Q).x mod n == r
+pub fn ind_verify(hash: &[u8], rs: &[u8], pubkey: &[u8]) -> Option<bool> {
+    use ethers_core::k256::elliptic_curve::group::Curve;
+    use ethers_core::k256::elliptic_curve::ops::Reduce;
+    use ethers_core::k256::elliptic_curve::sec1::{FromEncodedPoint, ToEncodedPoint};
+    use ethers_core::k256::elliptic_curve::PrimeField;
+    use ethers_core::k256::{AffinePoint, EncodedPoint, FieldBytes, ProjectivePoint, Scalar, U256};
+    if hash.len() != 32 || rs.len() != 64 {
+        return None;
+    }
+    let r: Option<Scalar> = Scalar::from_repr(FieldBytes::clone_from_slice(&rs[..32])).into();
+    let s: Option<Scalar> = Scalar::from_repr(FieldBytes::clone_from_slice(&rs[32..])).into();
+    let (r, s) = (r?, s?);
+    if bool::from(r.is_zero()) || bool::from(s.is_zero()) {
+        return None;
+    }
+    let ep = EncodedPoint::from_bytes(pubkey).ok()?;
+    let q: Option<AffinePoint> = AffinePoint::from_encoded_point(&ep).into();
+    let q = ProjectivePoint::from(q?);
+    let z = <Scalar as Reduce<U256>>::from_be_bytes_reduced(FieldBytes::clone_from_slice(hash));
+    let s_inv: Option<Scalar> = s.invert().into();
+    let s_inv = s_inv?;
+    let u1 = z * s_inv;
+    let u2 = r * s_inv;
+    let p = (ProjectivePoint::GENERATOR * u1 + q * u2).to_affine();
+    let enc = p.to_encoded_point(false);
+    let Some(x) = enc.x() else { return Some(false) };
+    let xr = <Scalar as Reduce<U256>>::from_be_bytes_reduced(*x);
+    Some(xr == r)
+}
+
+/// The property's reading of "a valid personal-sign signature by `eth_address` over
+/// `text`": the address is 0x + 40 hex digits, the signature is 65 bytes r||s||v with
+/// v one of 27, 28 (or the raw recovery ids 0, 1), and the key recovered from it is the
+/// address's key and verifies.
+pub fn ind_valid_personal_sign(eth_address: &str, text: &str, sig_hex: &str) -> bool {
+    let Some(sig) = ind_hex_decode(sig_hex) else { return false };
+    if sig.len() != 65 {
+        return false;
+    }
+    if eth_address.len() != 42 || !eth_address.starts_with("0x") {
+        return false;
+    }
+    let Some(addr) = ind_hex_decode(&eth_address[2..]) else { return false };
+    let recid = match sig[64] {
+        0 | 27 => 0,
+        1 | 28 => 1,
+        _ => return false,
+    };
+    let hash = ind_keccak(&ind_eth_preimage(text));
+    let Some(pk) = ind_recover(&hash, &sig[..64], recid) else { return false };
+    let Some(a) = ind_address_of(&pk) else { return false };
+    a[..] == addr[..] && ind_verify(&hash, &sig[..64], &pk) == Some(true)
+}
